@@ -723,6 +723,28 @@ func (st *State) builtin(f *ssa.Builtin, c *ssa.CallCommon, args []Val, site ssa
 		return TV{tInt(0), types.NewInterfaceType(nil, nil)}
 	case "print", "println":
 		return TupleV{}
+	case "clear":
+		// clear(s) on a slice: every element in [0, len) becomes the zero value, nothing else changes
+		sv, ok := args[0].(SliceV)
+		if !ok {
+			fail("clear of %T (only slices are modelled)", args[0])
+		}
+		if sv.Off.S != "0" {
+			fail("clear of a slice with non-zero offset is outside the modelled subset")
+		}
+		el := sliceElem(sv.Typ)
+		p := PtrV{Kind: "elem", Root: typeRepr(el), Base: sv.Arr, Idx: tInt(0), Elem: el}
+		for _, lf := range leavesOf(el, "") {
+			key, _ := st.leafSortKey(p, lf)
+			a := st.get(key)
+			oldInner := st.define("clrold", tSelect(a, sv.Arr))
+			ni := st.declare("clrinner", arrSort(SInt, lf.sort))
+			z := st.zeroTerm(lf.typ)
+			st.addLine(fmt.Sprintf("(assert (forall ((i Int)) (! (= (select %s i) (ite (and (<= 0 i) (< i %s)) %s (select %s i))) :pattern ((select %s i)))))",
+				ni.S, sv.Len.S, z.S, oldInner.S, ni.S))
+			st.set(key, tStore(a, sv.Arr, ni))
+		}
+		return TupleV{}
 	}
 	fail("unsupported builtin %s", f.Name())
 	return nil
@@ -913,6 +935,11 @@ func (vc *VC) callMod(c *ssa.CallCommon, li *loopInfo, depth int) {
 		}
 		if f.Name() == "close" {
 			li.mod["CH:open<"] = true
+		}
+		if f.Name() == "clear" {
+			if el := sliceElem(c.Args[0].Type()); el != nil {
+				vc.typeMod(PtrV{Kind: "elem", Root: typeRepr(el)}, el, "", li)
+			}
 		}
 		return
 	case *ssa.Function:
